@@ -2,6 +2,7 @@
 from lib.facts import norm, direct_place, const_int, origins, place_fields
 from lib import tables
 
+INLINE = True      # crate-local helpers the rules do not know by name are inlined into their callers (lib/inline.py)
 EXPLANATION = (
     "Expression-shape rules (narrow). R11.1 in TscTimestamp::duration_since the difference comes from "
     "checked_sub(self.value, earlier.value) - in that direction - whose None arm returns the default (zero); both "
